@@ -20,18 +20,20 @@ def random_graphs(seed, n):
             items = []
             for _ in range(r.randint(0, 5)):
                 q = r.random()
-                if q < 0.45:
+                if q < 0.35:
                     items.append({"k": "tok"})
+                elif q < 0.45:
+                    items.append({"k": "str"})
                 elif q < 0.85:
                     items.append({"k": "inc", "f": r.choice(names)})
                 elif q < 0.93:
-                    items.append({"k": "inc", "f": r.choice(["absent/file/with/a/long/name/z.theo", "y"])})
+                    items.append({"k": "inc", "f": r.choice(["absent/file/with/a/long/name/z.theo", "y", ""])})
                 else:
                     items.append({"k": "incbad"})
             if r.random() < 0.1:
                 items.append({"k": "incend"})
             fs[f] = items
-        cases.append({"fs": fs, "main": r.choice(names + ["absent/file/with/a/long/name/z.theo"])})
+        cases.append({"fs": fs, "main": r.choice(names + ["absent/file/with/a/long/name/z.theo", ""])})
     return cases
 
 
@@ -52,7 +54,7 @@ def run(chk):
     if not require_ok(res, "TheoInclude enumeration"):
         chk.violation("c15:model:" + res.violated, "TheoInclude: %s violated\n%s" % (res.violated, tlc_counterexample(res)), {"trace": tlc_counterexample(res, 8000)})
     chk.tlc_stats(res)
-    n = lexinc.compare_include(chk, th, res.cases, "c15:enum", compile_th=tha, compile_every=200 if not chk.thorough else 40)
+    n = lexinc.compare_include(chk, th, res.cases, "c15:enum", compile_th=tha, compile_every=200 if not chk.thorough else 40, rename=True)
     ncases = len(res.cases)
     res.cases = None
     if chk.thorough:
@@ -81,5 +83,5 @@ def run(chk):
     chk.cov["rule"] = ("TheoInclude enumerates every content of %d files with up to %d items each (token, include of each file / of an absent name, "
                        "include without a name, bare include at the end) and every main (also absent); <>done under weak fairness, DepthOK, "
                        "ReqsOK in the model; each configuration is rendered and scanned by the real Theo::scan: tokens with files and lines, "
-                       "errors by type/file/line, request sets; Theo::compile's file_requests on a sample; random graphs over 4-7 files" % (nf, ni))
+                       "errors by type/file/line, request sets, under four namings (plain, empty absent name, names differing only in case, long names); Theo::compile's file_requests on a sample; random graphs over 4-7 files" % (nf, ni))
     log("C15: %d configurations compared" % n)
